@@ -138,7 +138,9 @@ impl Prop for C14 {
         let (corrupted, untouched) = if c.corrupt_target { (&target, &input) } else { (&input, &target) };
         ensure!(out, *untouched == c.text, "the untouched part changed: {untouched:?} vs {:?}", c.text);
         // determinism, same instance and fresh instance
-        ensure!(out, run(&*f) == Ok((input.clone(), target.clone())), "same (text, seed), different output on the same instance");
+        for rep in 0..4 {
+            ensure!(out, run(&*f) == Ok((input.clone(), target.clone())), "same (text, seed), different output on the same instance (call {})", rep + 2);
+        }
         let f2 = make();
         ensure!(out, run(&*f2) == Ok((input.clone(), target.clone())), "same (text, seed), different output on a fresh instance");
         // only whitespace changed
